@@ -5,9 +5,13 @@
             let mut subscriptions = self.inner.subscriptions.lock().await;                    LAddSubs s   (guard kept to the end)
             match subscriptions.entry(rule) {
               Vacant(e)   => { let (sender, receiver) = broadcast(max_queued.unwrap_or(64));
+                               let mut senders = self.inner.msg_senders.lock().await;            LAddSender s
+                               if senders.is_empty() { return Err(BrokenPipe) }                  (fix 3703ee13)
                                e.insert((1, receiver.clone().deactivate()));
-                               self.inner.msg_senders.lock().await.insert(Some(rule), sender);  LAddSender s
+                               senders.insert(Some(rule), sender);
                                Ok(receiver) }
+                             (the model inserts the entry already at LAddSubs — `subscriptions` stays locked until LAddSender, so
+                              nobody can tell — and takes it back if LAddSender fails)
               Occupied(e) => { *num_subscriptions += 1; if max_queued > capacity { set_capacity(max_queued) }
                                Ok(receiver.activate_cloned()) } }
         Connection::remove_match(rule)                                      (queued by Drop / awaited by AsyncDrop::async_drop)
@@ -328,9 +332,16 @@ Definition step (l : label) (s : sys) : option sys :=
           | A2 c =>
               if senders_held s then None else
               let r := a_rule a in
-              let st := {| s_rule := Some r; s_ch := c; s_from := seen s c; s_got := [] |} in
-              Some (with_adds (with_streams (with_senders s (senders s ++ [(KRule r, c)])) (put (streams s) sid st))
-                              (del (adds s) sid))
+              match senders s with
+              | [] =>
+                  (* fix 3703ee13: the reader has failed meanwhile (msg_senders cleared): Err(BrokenPipe); the entry is not
+                     inserted (the model had put it at LAddSubs: taken back), sender and receiver of the new channel are dropped *)
+                  Some (with_adds (with_subs (set_chan s c (drop_rcv sid (chan_at s c))) (del (subs s) r)) (del (adds s) sid))
+              | _ =>
+                  let st := {| s_rule := Some r; s_ch := c; s_from := seen s c; s_got := [] |} in
+                  Some (with_adds (with_streams (with_senders s (senders s ++ [(KRule r, c)])) (put (streams s) sid st))
+                                  (del (adds s) sid))
+              end
           | _ => None
           end
       | None => None
